@@ -13,6 +13,12 @@ correspondence: harness/src/bin/facade.rs
                    frames, beneficiary, senders, a counter contract) with ordinary transactions:
                    parallel (2-8 workers, repeated) vs forced sequential vs stock revm in order with
                    the same adapters; observation logs from inside the precompile.
+               (3) driven stage (`facade driven`): directed blocks in which the scripts keep state in
+                   the storage of a code-less account that another script empties (EIP-161 removal,
+                   storage-reset marker), refills and rewrites, and readers load several slots in
+                   one call; run by the real Scheduler under the deterministic driver with a writer
+                   frozen between two of its publications; each run vs stock revm in order. (Added
+                   after finding F8.)
 search stage : the model-independent predicates of (1) and (2), re-run on more cases when the
                first two stages failed without such a witness.
 """
@@ -69,6 +75,19 @@ def run_driver(ctx, exe, model, seed, n_adapter, n_block, tag):
     return dict(cases=inp.splitlines(), impl=impl, model=mout.splitlines(), direct=direct, stats=stats)
 
 
+def run_driven(ctx, exe, seed, n, tag):
+    """Driven schedules (deterministic driver, a writer frozen between two of its publications) over
+    blocks whose scripts keep state in the storage of an account that another script empties."""
+    work = os.path.join(ctx.work, tag)
+    os.makedirs(work, exist_ok=True)
+    rc, out = core.sh([exe, "driven", str(seed), str(n), work], timeout=3000)
+    if rc != 0:
+        raise RuntimeError("facade driven stage failed: " + out[-3000:])
+    direct = [json.loads(l) for l in open(os.path.join(work, "driven.direct")).read().splitlines() if l.strip()]
+    stats = json.load(open(os.path.join(work, "driven.stats")))
+    return dict(direct=direct, stats=stats)
+
+
 def replay(ctx, exe):
     """Re-run the block recorded in a replay file (seed + block index) on the current tree."""
     r = json.load(open(ctx.replay))
@@ -77,11 +96,17 @@ def replay(ctx, exe):
     if len(toks) < 6 or toks[0] != "facade":
         core.log("replay file carries no block to re-run (adapter-level witnesses are re-found by the quick tier with the recorded seed):", str(w)[:2000])
         return 2
-    seed, idx = toks[1], toks[5]
     work = os.path.join(ctx.work, "replay")
-    rc, out = core.sh([exe, seed, "0", str(int(idx) + 1), work, idx], timeout=600)
-    core.log(out[-6000:])
-    direct = [json.loads(l) for l in open(os.path.join(work, "facade.direct")).read().splitlines() if l.strip()]
+    if toks[1] == "driven":
+        # facade driven <seed> <count> <outdir> <block> <schedule>
+        rc, out = core.sh([exe, "driven", toks[2], toks[3], work, toks[5], toks[6]], timeout=900)
+        core.log(out[-6000:])
+        direct = [json.loads(l) for l in open(os.path.join(work, "driven.direct")).read().splitlines() if l.strip()]
+    else:
+        seed, idx = toks[1], toks[5]
+        rc, out = core.sh([exe, seed, "0", str(int(idx) + 1), work, idx], timeout=600)
+        core.log(out[-6000:])
+        direct = [json.loads(l) for l in open(os.path.join(work, "facade.direct")).read().splitlines() if l.strip()]
     if direct:
         w = smallest(direct)
         core.log("replayed block fails: %s: %s" % (w["kind"], w["detail"][:2000]))
@@ -107,6 +132,9 @@ def run(ctx):
     n_adapter, n_block = (12000, 3000) if ctx.quick else (200000, 50000)
     d = run_driver(ctx, bins["facade"], model, ctx.seed, n_adapter, n_block, "main")
     first = core.diff_lines(d["impl"], d["model"])
+    drv = run_driven(ctx, bins["facade"], ctx.seed, 250 if ctx.quick else 6000, "driven")
+    d["direct"] = d["direct"] + drv["direct"]
+    d["stats"].update(drv["stats"])
     corr_ok = first is None and not d["direct"]
 
     if not proof["ok"] or not corr_ok:
@@ -147,7 +175,7 @@ def run(ctx):
             "axioms per Print Assumptions: " + str(proof["axioms"]),
             "revm's journal and alloy's EvmInternals are opaque in the model (section variables); that a journal operation is a tracked database access, follows frame reverts and is committed once is revm + C01, observed here by the block-level differential",
             "the reference facade in harness/src/bin/facade.rs (written from the property text, on alloy's EvmInternals) and the scripted test precompile",
-            "parallel runs are free-running threads (2-8 workers, 2-3 repetitions per block); schedules are sampled, not enumerated",
+            "parallel runs of the generated blocks are free-running threads (2-8 workers, 2-3 repetitions per block); the driven stage runs directed storage-holder blocks under the deterministic driver (a writer frozen between two publications until the readers did k reads, 8 schedules per block); schedules are sampled, not enumerated",
         ],
         theorems=proof["theorems"],
         evaluations=len(d["cases"]) + st.get("blk_txs", 0) * 1,
